@@ -11,10 +11,14 @@ Script lines (numbers are rationals `p/q`; seconds are relative to the start of 
                    <clk>:q:<delta>:<task> clk.sched(delta, task)
                    <clk>:c                clk.clear()
                    <clk>:T:<v>            clk.tempo = v
+                   <clk>:E:<v>            clk.etempo(v)
                    +:<dt>                 the task takes dt of physical time
         result:    r:<delta> (return/yield a number) | d (return None / end) | x (raise) |
                    n (a str) | bt (True) | bf (False) | o (an object): only a number re-schedules
-  new <i> <rate>                         t<i> = TempoClock(rate)
+  new <i> <rate> [p]                     t<i> = TempoClock(rate); p: t<i>.permanent = True
+  cmdp                                   CmdPeriod.run() (servers untouched): clears every clock, stops the
+                                          non-permanent TempoClocks; events of this line are sorted (the library
+                                          walks a set of clocks)
   adv <dt>
   op <m|o> <clk> s <key> <task> | q <delta> <task> | c | T <v> | stop
                                           m = driver thread, o = a second (virtual) thread
@@ -243,6 +247,8 @@ class Case:
             c.clear()
         elif w[0] == 'T':
             c.tempo = num(w[1])
+        elif w[0] == 'E':
+            c.etempo(num(w[1]))
         else:
             raise ValueError(w)
 
@@ -411,8 +417,35 @@ class Case:
                 self.threads[k] = vt.recs[n]
                 self.order.append(k)
                 vt.label(c._sched_cond, f'c{k}')
+                if w[-1] == 'p':
+                    c.permanent = True
                 vt.step(vt.recs[n])
                 return self.events()
+            if w[0] == 'cmdp':
+                from sc3.base import systemactions as sac
+                sac.CmdPeriod.free_servers = False
+                n = len(vt.recs)
+                res = []
+                try:
+                    sac.CmdPeriod.run()
+                except Exception as e:
+                    res.append(f'R:{type(e).__name__}')
+                stoppers = {}
+                for r in vt.recs[n:]:
+                    tgt = getattr(r.thread, '_target', None)
+                    stoppers[id(getattr(tgt, '__self__', None))] = r
+                for k in self.order[2:]:
+                    st = stoppers.get(id(self.clocks[k]))
+                    if st is not None:
+                        vt.step(st)
+                        vt.step(self.threads[k])
+                        vt.step(st)
+                for r in vt.recs[n:]:
+                    while not r.done and vt.step(r):
+                        pass
+                ev = self.events()
+                evs = sorted(([] if ev == '-' else ev.split(';')) + res)
+                return ';'.join(evs) if evs else '-'
             if w[0] == 'adv':
                 vt.advance(num(w[1]))
                 return '-'
